@@ -481,6 +481,92 @@ def rule_prune_degenerate(chk, prog):
     (r.bad if first_bad else r.ok)("PruneDegenerate over 128 configurations", fn.where(), first_bad or "")
 
 
+def rule_node_identity(chk, prog):
+    import json
+    import os
+    from ..facts import VERIF
+    r = chk.rule("NODE-IDENTITY-BY-ID", "libtopology recognises `this edge ends in the centre of this node` by node ID: pointer comparisons of "
+                 "topology::Node* occur only at the reviewed sites of tables/node_identity_reviewed.json -- during a resize one node is three Node "
+                 "objects (two walls and a sliver) sharing an id, and an identity test by address lets a node's own edges be bent round its own "
+                 "walls; the two id tests themselves (NodeEvent::createStraightConstraints, Segment::connectedToNode) must be there", floor=6)
+    table = json.load(open(os.path.join(VERIF, "tables", "node_identity_reviewed.json")))["sites"]
+    found = {}
+    for f in prog.all_functions():
+        if f.body is None or "/libtopology/" not in f.file or f.tmpl == "pattern" or "/tests/" in f.file:
+            continue
+        for n in f.nodes():
+            if n.get("k") == "BinaryOperator" and n.get("op") in ("==", "!="):
+                a, b = strip_casts(n["ch"][0]), strip_casts(n["ch"][1])
+                ta, tb = str((a or {}).get("t", "")).replace("const ", ""), str((b or {}).get("t", "")).replace("const ", "")
+                if "topology::Node *" in ta and "topology::Node *" in tb:
+                    found.setdefault(f.q, []).append((f, n))
+    for q in sorted(set(found) | set(table)):
+        r.count()
+        sites = found.get(q, [])
+        if q not in table:
+            f, n = sites[0]
+            r.bad(q, f.loc(n), "`%s` compares two topology::Node by address: the walls and the sliver of a node being resized share its id but are "
+                  "different objects" % norm(n)[:60])
+        elif len(sites) > table[q][0]:
+            f, n = sites[-1]
+            r.bad(q, f.loc(n), "%d address comparisons of topology::Node in this function, %d were reviewed" % (len(sites), table[q][0]))
+        else:
+            r.ok(q, sites[0][0].loc(sites[0][1]) if sites else "", "reviewed: " + table[q][1][:90])
+    for q in ("topology::NodeEvent::createStraightConstraints", "topology::Segment::connectedToNode"):
+        fn = prog.fn(q)
+        ids = [n for n in fn.nodes() if n.get("k") == "BinaryOperator" and n.get("op") in ("==", "!=") and norm(n["ch"][0]).endswith(".id") and norm(n["ch"][1]).endswith(".id")]
+        r.count()
+        (r.ok if len(ids) >= 2 else r.bad)(q + " (id tests)", fn.where(), "" if len(ids) >= 2 else
+                                           "the test for `edge attached to the centre of this node` no longer compares node ids at both ends")
+
+
+def rule_resize_copyback(chk, prog):
+    """resize.cpp CopyPositions: what a resize pass writes back into the caller's rectangles."""
+    from ..microai.interp import MapVal
+    r = chk.rule("RESIZE-COPYBACK", "CopyPositions::operator() (end of each resize pass) interpreted for a resized node and for an ordinary one, in both "
+                 "dimensions: the resized node's rectangle takes the extent its two wall nodes ACTUALLY reached ([lhs wall min, rhs wall max]) -- "
+                 "not the requested target, which the walls may have been stopped short of or shifted away from to keep nodes apart -- and the "
+                 "other dimension is untouched; an ordinary node is moved to its working copy's centre", floor=4)
+    cands = [f for k_, f in prog.by_key.items() if k_.startswith("topology::CopyPositions::operator()(") and f.body is not None]
+    if len(cands) != 1:
+        raise AnalysisBroken("topology::CopyPositions::operator() not found")
+    fn = cands[0]
+
+    def rect(x0, x1, y0, y1):
+        return default_obj(prog, "vpsc::Rectangle", {"minX": Fraction(x0), "maxX": Fraction(x1), "minY": Fraction(y0), "maxY": Fraction(y1), "overlap": False})
+    for dim in (0, 1):
+        for resized in (True, False):
+            v = default_obj(prog, "topology::Node", {"id": 3, "rect": rect(0, 10, 100, 110)})
+            work = default_obj(prog, "topology::Node", {"id": 3, "rect": rect(40, 50, 140, 150)})
+            tn = Vec([None, None, None, work], "topology::Node *")
+            lhs = default_obj(prog, "topology::Node", {"id": 3, "rect": rect(2, 3, 102, 103)})
+            rhs = default_obj(prog, "topology::Node", {"id": 3, "rect": rect(16, 17, 116, 117)})
+            info = default_obj(prog, "topology::ResizeInfo", {"orig": v, "targetRect": rect(1, 20, 101, 120), "lhsNode": lhs, "rhsNode": rhs})
+            rm = MapVal({3: info} if resized else {8: info})
+            functor = Obj("topology::CopyPositions", {"dim": dim, "tn": tn, "rm": rm})
+            it = Interp(prog, Oracle([]), globals={"vpsc::Rectangle::xBorder": Box(Fraction(0)), "vpsc::Rectangle::yBorder": Box(Fraction(0))})
+            inst = "%s node, %s pass" % ("resized" if resized else "ordinary", "xy"[dim])
+            r.count()
+            try:
+                it.call(fn, functor, None, None, arg_values=[v])
+            except Unsupported as e:
+                raise AnalysisBroken("CopyPositions outside the interpreter subset (%s): %s" % (inst, e))
+            except AssertFail as e:
+                r.bad(inst, fn.where(), "assertion fails: %s" % e)
+                continue
+            rc = v.f["rect"].f
+            got = ((rc["minX"], rc["maxX"]), (rc["minY"], rc["maxY"]))
+            want = [(Fraction(0), Fraction(10)), (Fraction(100), Fraction(110))]
+            if resized:
+                want[dim] = (Fraction(2), Fraction(17)) if dim == 0 else (Fraction(102), Fraction(117))
+            else:
+                want[dim] = (Fraction(40), Fraction(50)) if dim == 0 else (Fraction(140), Fraction(150))
+            bad = None
+            if got != tuple(want):
+                bad = "rectangle afterwards x %s y %s, expected x %s y %s" % tuple([tuple(str(a) for a in t) for t in got] + [tuple(str(a) for a in t) for t in want])
+            (r.bad if bad else r.ok)(inst, fn.where(), bad or "")
+
+
 def run(chk):
     prog = chk.load()
     chk.guard(rule_alpha, chk, prog)
@@ -488,6 +574,8 @@ def run(chk):
     chk.guard(rule_corner_tables, chk, prog)
     chk.guard(rule_prune, chk, prog)
     chk.guard(rule_prune_degenerate, chk, prog)
+    chk.guard(rule_node_identity, chk, prog)
+    chk.guard(rule_resize_copyback, chk, prog)
     from ..rules import mirrors
     r_m = chk.rule("MIRROR", "the x / y and low / high twins of libtopology's edge points, obstacles and segments stay mirror images (tables/mirrors.json)", floor=1)
     mirrors.check(r_m, prog, ["topology::EdgePoint::", "topology::LayoutObstacle::", "topology::LayoutEdgeSegment::"])
